@@ -282,4 +282,314 @@ Lemma apply_plan_error c n all (revs : list rev) r w :
   pending c all revs = (r, w) -> (forall p, r <> PFiles p) -> apply_plan c n all revs = (r, w).
 Proof. intros H N. unfold apply_plan. rewrite H. destruct r; try reflexivity. destruct (N fs eq_refl). Qed.
 
+(** ** 6. migrate set *)
+
+Lemma StronglySorted_app_intro {A} (R : A -> A -> Prop) l1 l2 :
+  StronglySorted R l1 -> StronglySorted R l2 -> (forall a b, In a l1 -> In b l2 -> R a b) ->
+  StronglySorted R (l1 ++ l2).
+Proof.
+  induction l1 as [|x l1 IH]; simpl; intros H1 H2 H; [exact H2|].
+  inversion H1 as [|? ? Hs Hf]; subst. constructor.
+  - apply IH; auto.
+  - rewrite Forall_forall in *. intros y Hy. apply in_app_or in Hy as [Hy|Hy]; auto.
+Qed.
+
+Definition same_row (a b : rev) : Prop :=
+  r_version a = r_version b /\ r_applied a = r_applied b /\ r_total a = r_total b.
+
+Lemma set_loop_In v (revs : list rev) r' :
+  In r' (set_loop v revs) ->
+  exists r, In r revs /\ bytes_leb (r_version r) v = true /\ same_row r' r.
+Proof.
+  unfold set_loop. rewrite in_flat_map. intros (r & Hr & H). exists r.
+  destruct (bytes_ltb v (r_version r)) eqn:E; [destruct H|].
+  apply bytes_ltb_false_leb in E. split; [exact Hr|split; [exact E|]].
+  destruct (_ && _); destruct H as [<-|[]]; repeat split.
+Qed.
+
+Lemma set_loop_keeps v (revs : list rev) r :
+  In r revs -> bytes_leb (r_version r) v = true ->
+  exists r', In r' (set_loop v revs) /\ same_row r' r.
+Proof.
+  intros Hr E. apply bytes_ltb_false_leb in E.
+  destruct (bytes_eqb (r_version r) v && (r_err r || negb (r_total r =? r_applied r))) eqn:C.
+  - exists (resolve r). split; [|repeat split]. unfold set_loop. apply in_flat_map. exists r.
+    rewrite E, C. split; [exact Hr|left; reflexivity].
+  - exists r. split; [|repeat split]. unfold set_loop. apply in_flat_map. exists r.
+    rewrite E, C. split; [exact Hr|left; reflexivity].
+Qed.
+
+Lemma set_loop_sorted v (revs : list rev) : sorted_revs revs -> sorted_revs (set_loop v revs).
+Proof.
+  unfold sorted_revs. induction 1 as [|a l Hs IH Hf]; [constructor|].
+  change (set_loop v (a :: l)) with
+    ((if bytes_ltb v (r_version a) then []
+      else if bytes_eqb (r_version a) v && (r_err a || negb (r_total a =? r_applied a)) then [resolve a] else [a])
+     ++ set_loop v l).
+  assert (forall x y, r_version x = r_version a -> In y (set_loop v l) -> rver_lt hash x y) as X.
+  { intros x y Ex Hy. apply set_loop_In in Hy as (r & Hr & _ & (Ev & _)).
+    rewrite Forall_forall in Hf. unfold rver_lt. rewrite Ex, Ev. exact (Hf r Hr). }
+  destruct (bytes_ltb v (r_version a)); [exact IH|].
+  destruct (_ && _); simpl; constructor; try exact IH; apply Forall_forall; intros y Hy; apply X; auto.
+Qed.
+
+Lemma set_upto_In v all f :
+  In f (set_upto v all) -> In f all /\ bytes_leb (f_version f) v = true.
+Proof.
+  induction all as [|a l IH]; simpl; [intros []|].
+  destruct (bytes_ltb v (f_version a)) eqn:E; [intros []|].
+  intros [<-|H]; [split; [left; reflexivity|apply bytes_ltb_false_leb; exact E]|].
+  destruct (IH H). auto.
+Qed.
+
+Lemma set_upto_complete v all f :
+  sorted_files all -> In f all -> bytes_leb (f_version f) v = true -> In f (set_upto v all).
+Proof.
+  unfold sorted_files. induction 1 as [|a l Hs IH Hf]; simpl; [intros []|].
+  intros Hin Hle.
+  assert (bytes_leb (f_version a) v = true) as Ha.
+  { destruct Hin as [<-|Hin]; [exact Hle|]. rewrite Forall_forall in Hf.
+    apply bytes_ltb_leb. eapply bytes_ltb_leb_trans; [exact (Hf f Hin)|exact Hle]. }
+  apply bytes_ltb_false_leb in Ha. rewrite Ha.
+  destruct Hin as [<-|Hin]; [left; reflexivity|right; auto].
+Qed.
+
+Lemma set_between_In lv v all f :
+  In f (set_between lv v all) ->
+  In f all /\ bytes_ltb lv (f_version f) = true /\ bytes_leb (f_version f) v = true.
+Proof.
+  induction all as [|a l IH]; simpl; [intros []|].
+  destruct (bytes_leb (f_version a) lv) eqn:E1.
+  - intros H. destruct (IH H) as (A & B & C). auto.
+  - destruct (bytes_ltb v (f_version a)) eqn:E2; [intros []|].
+    intros [<-|H].
+    + split; [left; reflexivity|]. split; [apply bytes_leb_false_ltb; exact E1|apply bytes_ltb_false_leb; exact E2].
+    + destruct (IH H) as (A & B & C). auto.
+Qed.
+
+Lemma set_between_complete lv v all f :
+  sorted_files all -> In f all -> bytes_ltb lv (f_version f) = true -> bytes_leb (f_version f) v = true ->
+  In f (set_between lv v all).
+Proof.
+  unfold sorted_files. induction 1 as [|a l Hs IH Hf]; simpl; [intros []|].
+  intros Hin Hlt Hle.
+  destruct (bytes_leb (f_version a) lv) eqn:E1.
+  - destruct Hin as [<-|Hin]; [|auto].
+    apply bytes_leb_false_ltb in Hlt. congruence.
+  - assert (bytes_leb (f_version a) v = true) as Ha.
+    { destruct Hin as [<-|Hin]; [exact Hle|]. rewrite Forall_forall in Hf.
+      apply bytes_ltb_leb. eapply bytes_ltb_leb_trans; [exact (Hf f Hin)|exact Hle]. }
+    apply bytes_ltb_false_leb in Ha. rewrite Ha.
+    destruct Hin as [<-|Hin]; [left; reflexivity|right; auto].
+Qed.
+
+Lemma set_upto_sorted v all : sorted_files all -> sorted_files (set_upto v all).
+Proof.
+  unfold sorted_files. induction 1 as [|a l Hs IH Hf]; simpl; [constructor|].
+  destruct (bytes_ltb v (f_version a)); constructor; [exact IH|].
+  rewrite Forall_forall in *. intros y Hy. apply set_upto_In in Hy as [Hy _]. auto.
+Qed.
+
+Lemma set_between_sorted lv v all : sorted_files all -> sorted_files (set_between lv v all).
+Proof.
+  unfold sorted_files. induction 1 as [|a l Hs IH Hf]; simpl; [constructor|].
+  destruct (bytes_leb (f_version a) lv); [exact IH|].
+  destruct (bytes_ltb v (f_version a)); constructor; [exact IH|].
+  rewrite Forall_forall in *. intros y Hy. apply set_between_In in Hy as (Hy & _). auto.
+Qed.
+
+(** A named file that has a revision is the file of the last (partially applied) revision. *)
+Lemma named_rev_is_last c all (revs : list rev) f r :
+  sorted_files all -> sorted_revs revs ->
+  In f (result_files (fst (pending c all revs))) ->
+  In r revs -> r_version r = f_version f -> r = last revs r.
+Proof.
+  intros Hsa Hsr Hf Hr Ev.
+  assert (revs <> []) as Hne by (destruct revs; [destruct Hr|discriminate]).
+  rewrite (pending_hist_spec hash c all revs r Hsa Hsr Hne) in Hf.
+  unfold hist_spec in Hf. cbv zeta in Hf.
+  assert (forall g, bytes_eqb (f_version g) (r_version (last revs r)) = true ->
+          In f (g :: newer (r_version (last revs r)) all) -> r = last revs r) as Hcons.
+  { intros g Hg [<-|Hn]; [|destruct (newer_no_rev hash all revs r r f Hsr Hr Hn Ev)].
+    apply bytes_eqb_eq in Hg. rewrite <- Ev in Hg.
+    exact (last_ver_unique hash revs r r Hsr Hr Hg). }
+  destruct (r_applied (last revs r) =? r_total (last revs r)).
+  - simpl in Hf. apply by_order_files in Hf as [Hf|Hf].
+    + destruct (ooo_no_rev hash _ _ all revs r f Hr Hf Ev).
+    + destruct (newer_no_rev hash all revs r r f Hsr Hr Hf Ev).
+  - destruct (find _ all) as [g|] eqn:Efind.
+    + apply find_some in Efind as [_ Hg].
+      destruct (f_ckpt g); simpl in Hf.
+      * exact (Hcons g Hg Hf).
+      * apply by_order_files in Hf as [Hf|Hf]; [destruct (ooo_no_rev hash _ _ all revs r f Hr Hf Ev)|].
+        exact (Hcons g Hg Hf).
+    + destruct (existsb _ all); simpl in Hf; destruct Hf.
+Qed.
+
+Lemma result_files_In c all (revs : list rev) f :
+  sorted_files all -> sorted_revs revs ->
+  In f (result_files (fst (pending c all revs))) -> In f all.
+Proof.
+  intros Hsa Hsr. rewrite (pending_refines hash c all revs Hsa Hsr).
+  assert (forall v g, In g (newer v all) -> In g all) as N by (intros v g H; apply newer_In in H; tauto).
+  assert (forall a b g, In g (ooo_files a b revs all) -> In g all) as O
+    by (intros a b g H; apply (ooo_files_In hash) in H; tauto).
+  unfold pending_spec. destruct revs as [|r0 tl].
+  - unfold first_spec. destruct (_ && _ && _); [intros []|].
+    destruct (c_baseline c) as [bv|].
+    + destruct (existsb _ all); [|intros []]. cbn [fst]. rewrite finish_files. apply N.
+    + cbn [fst]. rewrite finish_files, <- from_last_ckpt_eq. unfold files_from_last_checkpoint.
+      destruct (files_last_index f_ckpt all) as [i|]; [|auto]. intros H.
+      rewrite <- (firstn_skipn i all). apply in_or_app. right. exact H.
+  - unfold hist_spec. cbv zeta.
+    destruct (_ =? _).
+    + cbn [fst]. intros H. apply by_order_files in H as [H|H]; eauto.
+    + destruct (find _ all) as [g|] eqn:Ef.
+      * apply find_some in Ef as [Hg _].
+        destruct (f_ckpt g); cbn [fst].
+        -- intros [<-|H]; eauto.
+        -- intros H. apply by_order_files in H as [H|[<-|H]]; eauto.
+      * destruct (existsb _ all); intros [].
+Qed.
+
+(** After [migrate set v] ([v] a version of the directory): a file with version <= v that
+    Pending still names is either the file of [v] itself and its revision was partially
+    applied before the set, or a file that was already out of order before the set (it has
+    no revision although a later version <= v has one). *)
+Lemma set_except c all (revs : list rev) v g t' f :
+  sorted_files all -> sorted_revs revs ->
+  In g all -> f_version g = v ->
+  migrate_set (Some v) all revs = SetOk t' ->
+  sorted_revs t' /\
+  (In f (result_files (fst (pending c all t'))) -> bytes_leb (f_version f) v = true ->
+   (f_version f = v /\ exists r, In r revs /\ r_version r = v /\ r_applied r <> r_total r) \/
+   (has_rev revs (f_version f) = false /\
+    exists r, In r revs /\ bytes_ltb (f_version f) (r_version r) = true /\ bytes_leb (r_version r) v = true)).
+Proof.
+  intros Hsa Hsr Hg Hgv Hset. unfold migrate_set in Hset.
+  destruct (files_last_index _ all) as [i|] eqn:Ei.
+  2:{ exfalso. rewrite fli_None in Ei. specialize (Ei g Hg). cbv beta in Ei.
+      rewrite Hgv, bytes_eqb_refl in Ei. discriminate. }
+  injection Hset as <-.
+  set (revs1 := set_loop v revs) in *.
+  assert (sorted_revs revs1) as Hs1 by (apply set_loop_sorted; exact Hsr).
+  set (pend := match last_opt revs1 with
+               | None => set_upto v all
+               | Some l => if bytes_ltb (r_version l) v then set_between (r_version l) v all else []
+               end) in *.
+  (* facts about the new rows *)
+  assert (forall x, In x pend -> In x all /\ bytes_leb (f_version x) v = true /\
+                    forall r1, In r1 revs1 -> bytes_ltb (r_version r1) (f_version x) = true) as Hpend.
+  { intros x Hx. subst pend. destruct revs1 as [|r0 tl] eqn:E1.
+    - cbn in Hx. apply set_upto_In in Hx as [A B]. split; [exact A|split; [exact B|intros r1 []]].
+    - rewrite <- E1 in *. assert (revs1 <> []) as N1 by (rewrite E1; discriminate).
+      rewrite (last_opt_last hash revs1 r0 N1) in Hx.
+      destruct (bytes_ltb (r_version (last revs1 r0)) v); [|destruct Hx].
+      apply set_between_In in Hx as (A & B & C). split; [exact A|split; [exact C|]].
+      intros r1 Hr1. destruct (sorted_revs_last_max hash revs1 r0 r1 Hs1 Hr1) as [->|L]; [exact B|].
+      eapply bytes_ltb_trans; eauto. }
+  assert (sorted_files pend) as Hsp.
+  { subst pend. destruct (last_opt revs1) as [l|]; [|apply set_upto_sorted; exact Hsa].
+    destruct (bytes_ltb (r_version l) v); [apply set_between_sorted; exact Hsa|constructor]. }
+  assert (sorted_revs (revs1 ++ map resolved_rev pend)) as Hst.
+  { apply StronglySorted_app_intro; [exact Hs1| |].
+    - apply (proj2 (StronglySorted_map (fun a b => bytes_ltb a b = true) (@r_version hash) _)).
+      rewrite map_map. cbn [resolved_rev r_version].
+      apply (proj1 (StronglySorted_map (fun a b => bytes_ltb a b = true) f_version pend)). exact Hsp.
+    - intros a b Ha Hb. apply in_map_iff in Hb as (x & <- & Hx). unfold rver_lt. cbn [resolved_rev r_version].
+      apply (Hpend x Hx). exact Ha. }
+  split; [exact Hst|].
+  set (t' := revs1 ++ map resolved_rev pend) in *.
+  (* every row of t' is <= v *)
+  assert (forall r', In r' t' -> bytes_leb (r_version r') v = true) as HU.
+  { intros r' Hr'. apply in_app_or in Hr' as [H|H].
+    - apply set_loop_In in H as (r & _ & Hle & (Ev & _)). rewrite Ev. exact Hle.
+    - apply in_map_iff in H as (x & <- & Hx). cbn. apply (Hpend x Hx). }
+  (* v has a row in t' *)
+  assert (exists rv, In rv t' /\ r_version rv = v) as (rv & Hrv & Erv).
+  { destruct (has_rev revs v) eqn:Hv.
+    - apply has_rev_In in Hv. apply in_map_iff in Hv as (r & Er & Hr).
+      destruct (set_loop_keeps v revs r Hr) as (r' & Hr' & (Ev & _)); [rewrite Er; apply bytes_leb_refl|].
+      exists r'. split; [apply in_or_app; left; exact Hr'|congruence].
+    - exists (resolved_rev g). split; [|exact Hgv]. apply in_or_app. right. apply in_map. subst pend.
+      destruct revs1 as [|r0 tl] eqn:E1.
+      + cbn. apply set_upto_complete; [exact Hsa|exact Hg|rewrite Hgv; apply bytes_leb_refl].
+      + rewrite <- E1 in *. assert (revs1 <> []) as N1 by (rewrite E1; discriminate).
+        rewrite (last_opt_last hash revs1 r0 N1).
+        assert (In (last revs1 r0) revs1) as Hl.
+        { destruct (exists_last N1) as (l' & a & E). rewrite E, last_last. apply in_or_app. right. left. reflexivity. }
+        apply set_loop_In in Hl as (r & Hr & Hle & (Ev & _)).
+        assert (bytes_ltb (r_version (last revs1 r0)) v = true) as Hlt.
+        { rewrite Ev. apply bytes_leb_cases in Hle as [L|E]; [exact L|].
+          exfalso. assert (has_rev revs v = true) as X by (rewrite <- E; apply has_rev_of_In; exact Hr).
+          congruence. }
+        rewrite Hlt. apply set_between_complete; [exact Hsa|exact Hg|rewrite Hgv; exact Hlt|rewrite Hgv; apply bytes_leb_refl]. }
+  assert (t' <> []) as Hne by (destruct t'; [destruct Hrv|discriminate]).
+  assert (r_version (last t' rv) = v) as Hlast.
+  { destruct (sorted_revs_last_max hash t' rv rv Hst Hrv) as [<-|L]; [exact Erv|].
+    assert (In (last t' rv) t') as Hl.
+    { destruct (exists_last Hne) as (l' & a & E). rewrite E, last_last. apply in_or_app. right. left. reflexivity. }
+    apply HU in Hl. rewrite Erv in L. apply bytes_leb_false_ltb in L. congruence. }
+  intros Hf Hle.
+  assert (In f all) as Hfa by (exact (result_files_In c all t' f Hsa Hst Hf)).
+  destruct (has_rev t' (f_version f)) eqn:Hr.
+  - (* f has a row: it is the last one, v, and it is partial *)
+    left. apply has_rev_In in Hr. apply in_map_iff in Hr as (r' & Er' & Hr').
+    pose proof (named_rev_is_last c all t' f r' Hsa Hst Hf Hr' Er') as El.
+    rewrite (last_indep hash t' r' rv Hne) in El.
+    assert (f_version f = v) as Efv by (rewrite <- Er', El; exact Hlast).
+    split; [exact Efv|].
+    pose proof (never_applied_again hash c all t' f r' Hsa Hst Hf Hr' Er') as Hnc.
+    apply in_app_or in Hr' as [H|H].
+    + apply set_loop_In in H as (r & Hin & _ & (Ev & Ea & Et)). exists r.
+      split; [exact Hin|]. split; [congruence|]. unfold complete in Hnc. congruence.
+    + apply in_map_iff in H as (x & <- & _). exfalso. apply Hnc. reflexivity.
+  - (* f has no row: it was out of order already *)
+    right.
+    assert (has_rev revs (f_version f) = false) as Hno.
+    { destruct (has_rev revs (f_version f)) eqn:X; [|reflexivity].
+      apply has_rev_In in X. apply in_map_iff in X as (r & Er & Hin).
+      destruct (set_loop_keeps v revs r Hin) as (r' & Hr' & (Ev & _)); [rewrite Er; exact Hle|].
+      assert (has_rev t' (f_version f) = true) as Y.
+      { rewrite <- Er, <- Ev. apply has_rev_of_In. apply in_or_app. left. exact Hr'. }
+      congruence. }
+    split; [exact Hno|].
+    assert (~ In f pend) as Hnp.
+    { intros Hp. assert (has_rev t' (f_version f) = true) as Y.
+      { change (f_version f) with (r_version (resolved_rev (hash := hash) f)). apply has_rev_of_In.
+        apply in_or_app. right. apply in_map. exact Hp. }
+      congruence. }
+    subst pend. destruct revs1 as [|r0 tl] eqn:E1.
+    + exfalso. apply Hnp. cbn. apply set_upto_complete; assumption.
+    + rewrite <- E1 in *. assert (revs1 <> []) as N1 by (rewrite E1; discriminate).
+      rewrite (last_opt_last hash revs1 r0 N1) in Hnp.
+      assert (In (last revs1 r0) revs1) as Hl.
+      { destruct (exists_last N1) as (l' & a & E). rewrite E, last_last. apply in_or_app. right. left. reflexivity. }
+      apply set_loop_In in Hl as (r & Hin & Hrle & (Ev & _)).
+      exists r. split; [exact Hin|]. split; [|exact Hrle]. rewrite <- Ev.
+      destruct (bytes_ltb (f_version f) (r_version (last revs1 r0))) eqn:L; [reflexivity|exfalso].
+      apply bytes_ltb_false_leb in L. apply bytes_leb_cases in L as [L|E].
+      * assert (bytes_ltb (r_version (last revs1 r0)) v = true) as Lv by (eapply bytes_ltb_leb_trans; eauto).
+        rewrite Lv in Hnp. apply Hnp. apply set_between_complete; assumption.
+      * assert (has_rev revs (f_version f) = true) as Y.
+        { rewrite <- E, Ev. apply has_rev_of_In. exact Hin. }
+        congruence.
+Qed.
+
 End StatusProofs.
+
+(** Witness: directory [1] (two statements), revision 1 partially applied (1/2, error);
+    [migrate set 1] keeps Applied < Total and Pending still names file 1. *)
+Definition ws_file : file := mkFile [49%N] [[65%N]; [66%N]] false.
+Definition ws_rev : rev unit := mkRev [49%N] 1 2 [tt] true 2%N.
+
+Lemma set_partial_witness :
+  exists (c : cfg) (all : list file) (revs : list (rev unit)) (v : bytes) (g : file) (t' : list (rev unit)) (f : file),
+    sorted_files all /\ sorted_revs revs /\ In g all /\ f_version g = v /\
+    migrate_set (Some v) all revs = SetOk t' /\
+    In f (result_files (fst (pending c all t'))) /\ bytes_leb (f_version f) v = true.
+Proof.
+  exists (mkCfg Linear None false false), [ws_file], [ws_rev], [49%N], ws_file, [resolve ws_rev], ws_file.
+  split; [repeat constructor|]. split; [repeat constructor|].
+  vm_compute. repeat split; auto.
+Qed.
